@@ -309,10 +309,13 @@ def o_remove(ev, st, t, site):
     idx = _as_int(_deref(st, _arg(ev, st, t, 1)))
     if lid is None or idx is None:
         return False
+    is_vec = "vec::Vec" in norm(site.name) and "VecDeque" not in norm(site.name)
     if idx < len(lst):
         e = lst.pop(idx)
         st[-lid] = ("list", tuple(lst))
-        return _set_dest(st, t, some(e))
+        return _set_dest(st, t, e if is_vec else some(e))    # Vec::remove answers the element, VecDeque::remove an Option
+    if is_vec:
+        return False     # out of bounds: Vec::remove panics - not a path of the model
     return _set_dest(st, t, NONE)
 
 
